@@ -29,6 +29,8 @@ def seed_table():
         name = os.path.basename(os.path.dirname(d))
         m = json.load(open(d))
         rs = "; ".join(f"{f[1]}: {'caught' if f[2]=='exit=1' else 'MISSED' if f[2]=='exit=0' else f[2]} ({f[3].replace('class=','')})" for f in res.get(name, [])) or "not run"
+        extra = m.get("first_run") or m.get("note")
+        if extra: rs += " — *" + extra.replace("|", "/") + "*"
         out.append(f"| `{name}` | {m['property']} | {m['needs_to_manifest']} | {rs} |")
     return "\n".join(out)
 s = open(f"{root}/DESIGN.md").read()
